@@ -32,6 +32,16 @@ def _apply(root, m):
     with open(path, encoding='utf-8') as fh:
         s = fh.read()
     n = s.count(m['find'])
+    occ = m.get('occurrence')
+    if occ is not None:
+        # the k-th of several identical sites (0-based); the count must still be what was confirmed when the mutant was written
+        if n != m.get('of', n) or occ >= n:
+            return 'inapplicable: find text occurs %d times in %s (expected %s)' % (n, m['file'], m.get('of'))
+        parts = s.split(m['find'])
+        s2 = m['find'].join(parts[:occ + 1]) + m['replace'] + m['find'].join(parts[occ + 1:])
+        with open(path, 'w', encoding='utf-8') as fh:
+            fh.write(s2)
+        return None
     if n != 1:
         return 'inapplicable: find text occurs %d times in %s' % (n, m['file'])
     with open(path, 'w', encoding='utf-8') as fh:
